@@ -388,10 +388,13 @@ class KPreempt(RandomPolicy):
 
     name = 'k-preempt'
 
-    def __init__(self, rng, points, first=None):
+    def __init__(self, rng, points, first=None, sites=None):
         super().__init__(rng)
         # points: {(tid, thread_step): hold}
         self.points = dict(points)
+        # sites: {(tid, function, line): [k, hold]} - pre-empt at the k-th time the thread reaches that code site
+        self.site_points = {k: list(v) for k, v in (sites or {}).items()}
+        self.site_tids = {k[0] for k in self.site_points}
         self.hold_left = None
         self.back_to = None
         self.first_tid = first
@@ -402,7 +405,8 @@ class KPreempt(RandomPolicy):
         return super().first(sim)
 
     def describe(self):
-        return {'name': self.name, 'points': sorted([k[0], k[1], v] for k, v in self.points.items())}
+        return {'name': self.name, 'points': sorted([k[0], k[1], v] for k, v in self.points.items()),
+                'sites': sorted([list(k) + v for k, v in self.site_points.items()])}
 
     def decide(self, sim, t, kind):
         if self.hold_left is not None:
@@ -421,6 +425,15 @@ class KPreempt(RandomPolicy):
                     if not bt.finished and bt.blocked_on is None:
                         return b
         hold = self.points.pop((t.idx, t.step), -1)
+        if hold == -1 and self.site_points and t.idx in self.site_tids and kind in ('call', 'line') and t.in_op:
+            f = t.frame
+            sp = self.site_points.get((t.idx, f.f_code.co_name, f.f_lineno)) if f is not None else None
+            if sp is not None:
+                sp[0] -= 1
+                if sp[0] <= 0:
+                    del self.site_points[(t.idx, f.f_code.co_name, f.f_lineno)]
+                    hold = sp[1]
+                    sim.probe('site_point_reached')
         if hold != -1:
             tgt = self.pick_other(sim, t)
             if tgt is not None:
